@@ -121,12 +121,20 @@ def gen_sdl(rng):
         parts.append(f"scalar {s}")
     for i in ifaces:
         parts.append(f'"""iface doc"""\ninterface {i} {{\n  id: ID!\n  note: String\n}}')
+    # an interface that implements an interface (its name sorts before the parent's: the other order cannot be created
+    # as a class hierarchy when an object lists both)
+    sub_iface = bool(ifaces) and rng.random() < 0.5
+    if sub_iface:
+        parts.append(f"interface H0 implements {ifaces[0]} {{\n  id: ID!\n  note: String\n  rank: Int\n}}")
     for n in names:
         impl = ""
         body = fields(rng.choice([1, 2, 3, 4]))
         if ifaces and rng.random() < 0.5:
             impl = f" implements {ifaces[0]}"
             body = "  id: ID!\n  note: String\n" + "\n".join(l for l in body.splitlines() if not l.strip().startswith(("id:", "note:")))
+            if sub_iface and rng.random() < 0.5:
+                impl = f" implements H0 & {ifaces[0]}"
+                body = "  rank: Int\n" + "\n".join(l for l in body.splitlines() if not l.strip().startswith("rank:"))
         desc = '"line one"\n' if rng.random() < 0.3 else ""
         parts.append(f"{desc}type {n}{impl} {{\n{body}\n}}")
     for n in inputs:
